@@ -61,7 +61,10 @@ def addEntW (w : W) (lfs : List LF) (v : Nat) : W × List (Nat × Out) :=
 
 def remEntW (w : W) (e : List Nat) (vu v : Nat) : W × List (Nat × Out) :=
   let r1 := if w.nmData 902 = 0 then (w, []) else ucSet w vu
-  let w2 : W := { r1.1 with loc := r1.1.loc.filter fun lf => lf.nm || lf.ent ≠ e }
+  -- the entity object is gone, and with it the data its features held (an entity attached later under the same
+  -- address is a fresh object); registry entries naming its features stay
+  let w2 : W := { r1.1 with loc := r1.1.loc.filter fun lf => lf.nm || lf.ent ≠ e
+                            data := fun a fn => if a.1 = e then 0 else r1.1.data a fn }
   (bump (nmSet w2 901 v) (nmNotifs w 901), r1.2 ++ nmNotifs w 901)
 
 def tstep (w : W) : TOp → W × List (Nat × Out)
